@@ -84,6 +84,10 @@ pub struct Outcome {
     pub stats: Stats,
     pub failure: Option<Failure>,
     pub answers: Vec<(usize, String)>,
+    /// the reference model at the end of the run
+    pub model: Model,
+    /// number of commits that were in tables (not only in the WAL) when the run ended
+    pub flushed_commits: usize,
 }
 
 #[derive(Clone, Debug)]
@@ -150,6 +154,7 @@ pub struct Exec<'a> {
     active_bytes: usize,
     arena_rotations: u64,
     key_window: Option<(u16, u16)>,
+    flushed_commits: usize,
 }
 
 type R<T> = std::result::Result<T, Failure>;
@@ -854,6 +859,7 @@ impl<'a> Exec<'a> {
                 }
                 self.stats.inc("flushes");
                 self.active_bytes = 0;
+                self.flushed_commits = self.model.len();
                 tokio::task::yield_now().await;
                 self.after_phys("flush")?;
             }
@@ -1455,6 +1461,7 @@ pub async fn run_case(case: &Case, dir: &Path, opts: &ExecOpts) -> Outcome {
         active_bytes: 0,
         arena_rotations: 0,
         key_window: None,
+        flushed_commits: 0,
     };
     let failure = run_inner(&mut ex).await.err();
     // best-effort teardown
@@ -1466,7 +1473,7 @@ pub async fn run_case(case: &Case, dir: &Path, opts: &ExecOpts) -> Outcome {
             tokio::task::yield_now().await;
         }
     }
-    Outcome { stats: ex.stats, failure, answers: ex.answers }
+    Outcome { stats: ex.stats, failure, answers: ex.answers, model: ex.model, flushed_commits: ex.flushed_commits }
 }
 
 async fn run_inner(ex: &mut Exec<'_>) -> R<()> {
